@@ -816,6 +816,64 @@ def job_extract_lock(t, orders, lay='xyzw'):
                         S.prove('%s.rebuild[r%dc%d]' % (name, r, c), G[r][c] == Mx[r][c], eqs + circles, timeout=S.cap(20, 60), solver='nra', replay=native_replay, **meta)
     return run
 
+def job_nan_free(lay, t):
+    """bit-precise: for every quaternion that is unit up to rounding (|fl(w^2+x^2+y^2+z^2) - 1| <= 2^-20, components finite) the arguments that pitch / yaw / roll / eulerAngles and
+    angle / axis hand to asin / acos lie in [-1, 1] and every square root is taken of a non-negative number: the sine of the yaw 2(wy - xz) may round above 1 at gimbal lock and
+    must not turn the Euler angles into NaN.  A counterexample is replayed natively (a NaN result on the model input)."""
+    Un = UNITS[lay]; w = 32 if t == 'f32' else 64
+    def run(S):
+        for fn in ('pyr_' + t,):        # (angle / axis guard their square root with a branch; a path-insensitive argument check would be a false alarm there)
+            if fn is None: continue
+            try: res = sym_call(Un, fn, mode='fp')
+            except Unsupported as e:
+                S.rec(name='%s.%s.nan-free' % (Un.name, fn), kind='encode', result='unsupported', status='not-encoded', note=str(e)[:200], mandatory=True, functions=[fn]); S.inconclusive.append('%s.%s.nan-free [not encoded]' % (Un.name, fn)); continue
+            q = res.ins[0][:4]; f = [fpof(x) for x in q]; one = FPV(1.0, w); RNE_ = z3.RNE()
+            n2 = z3.fpAdd(RNE_, z3.fpAdd(RNE_, z3.fpAdd(RNE_, z3.fpMul(RNE_, f[0], f[0]), z3.fpMul(RNE_, f[1], f[1])), z3.fpMul(RNE_, f[2], f[2])), z3.fpMul(RNE_, f[3], f[3]))
+            tol = FPV(2.0 ** -20, w)
+            hy = [z3.Not(is_nan(x)) for x in q] + [z3.fpLEQ(z3.fpAbs(x_), FPV(2.0, w)) for x_ in f] + [z3.fpLEQ(z3.fpSub(RNE_, one, tol), n2), z3.fpLEQ(n2, z3.fpAdd(RNE_, one, tol))] + list(res.axioms)
+            for terms in res.ins[1:]: hy += [z3.Not(is_nan(x)) for x in terms]
+            seen = {}; st = [o_.fp if isinstance(o_, FV) else o_ for o in res.outs for o_ in o]
+            while st:
+                x = st.pop(); k = x.get_id()
+                if k in seen: continue
+                seen[k] = x; st.extend(x.children())
+            goals = []
+            for x in seen.values():
+                if not z3.is_app(x): continue
+                if x.decl().kind() == z3.Z3_OP_UNINTERPRETED and x.num_args() == 1 and re.sub(r'(32|64)$', '', x.decl().name().split('!')[0]) in ('asin', 'acos'):
+                    a_ = x.arg(0); goals.append(('%s-argument-in-[-1,1]' % x.decl().name().split('!')[0], z3.And(z3.fpLEQ(FPV(-1.0, w), a_), z3.fpLEQ(a_, one))))
+                if x.decl().kind() == z3.Z3_OP_FPA_SQRT:
+                    a_ = x.arg(1); goals.append(('sqrt-argument>=0', z3.Not(z3.fpLT(a_, FPV(0.0, w)))))
+            def replay(m, fn=fn, res=res):
+                vals = S._model_inputs(m, res); nat = Un.call_native(fn, vals)
+                info = {'unit': Un.name, 'fn': fn, 'inputs': [[hex(v) for v in r] for r in vals], 'native_out': [[hex(v) for v in r] for r in nat], 'property': 'C04', 'obligation': '%s.%s.nan-free' % (Un.name, fn)}
+                bad = any(bits_to_float(v, w) != bits_to_float(v, w) for row in nat for v in row)
+                return ('reproduced' if bad else 'not-reproduced'), info
+            if not goals:
+                S.rec(name='%s.%s.nan-free' % (Un.name, fn), kind='structure', functions=[fn], bounds='bit-precise', solver='term inspection', result='unsat', time_s=0.0, status='discharged', mandatory=True, note='no asin / acos / sqrt in the results'); continue
+            def generalise(g):      # every maximal arithmetic sub-term becomes an arbitrary float: the clamp in front of asin must do its job whatever it is handed
+                subs = []; seen2 = set(); st2 = [g]; byval = {}
+                while st2:
+                    x = st2.pop(); k = x.get_id()
+                    if k in seen2: continue
+                    seen2.add(k)
+                    if z3.is_app(x) and z3.is_fp(x) and x.decl().kind() in (z3.Z3_OP_FPA_ADD, z3.Z3_OP_FPA_SUB, z3.Z3_OP_FPA_MUL, z3.Z3_OP_FPA_DIV, z3.Z3_OP_FPA_FMA, z3.Z3_OP_FPA_NEG):
+                        kk = z3.simplify(x).sexpr()       # the same value reached through different bit-cast wrappers gets the same variable
+                        if kk not in byval: byval[kk] = z3.FreshConst(x.sort(), 'anyfp')
+                        subs.append((x, byval[kk])); continue
+                    st2.extend(x.children())
+                return (z3.substitute(g, *subs), [z3.Not(z3.fpIsNaN(v)) for v in byval.values()]) if subs else (g, [])
+            for k_, (lab, g) in enumerate(goals):
+                gg, nn = generalise(g)
+                if nn:
+                    r_, m_, dt_, used_ = S.query(nn + [z3.Not(gg)], 20, 'z3', [])
+                    if r_ == 'unsat':
+                        S.rec(name='%s.%s.nan-free[%d:%s]' % (Un.name, fn, k_, lab), kind='domain', functions=['w_' + fn], bounds='bit-precise IEEE; the arithmetic sub-terms generalised to arbitrary non-NaN floats (stronger than the claim)', solver=used_, result='unsat', time_s=round(dt_, 3), status='discharged', mandatory=True)
+                        continue
+                S.prove('%s.%s.nan-free[%d:%s]' % (Un.name, fn, k_, lab), g, hy, timeout=S.cap(60, 120), solver='z3', kind='domain', functions=['w_' + fn], replay=replay,
+                        bounds='bit-precise IEEE; all quaternions with finite components |c| <= 2 and |fl(|q|^2) - 1| <= 2^-20')
+    return run
+
 def fp_canon(t, memo=None):
     """sort the operands of IEEE add/mul (commutative, single NaN in SMT-LIB FP) so that clang's operand-order choices do not matter"""
     memo = {} if memo is None else memo
@@ -874,4 +932,5 @@ def jobs(tier):
         J.append(('layout_' + t, job_layout(t, ['qv', 'm3', 'rt', 'mm', 'inv', 'aa', 'uv', 'rot', 'qeul', 'eulq'])))
         for k in range(0, 12, 3): J.append(('extract_%s_%d' % (t, k // 3), job_extract(t, EULER3[k:k + 3])))
         for k in range(0, 12, 2): J.append(('extractlock_%s_%d' % (t, k // 2), job_extract_lock(t, EULER3[k:k + 2])))
+        J.append(('nanfree_%s' % t, job_nan_free('xyzw', t)))
     return J
